@@ -201,6 +201,8 @@ def parse_payload(f):
             f.bad = ('size', 'SETTINGS length not a multiple of 6')
             return
         f.settings = [struct.unpack('>HI', p[i:i + 6]) for i in range(0, n, 6)]
+        if len(set(k for k, _ in f.settings)) != len(f.settings):
+            f.quirk = 'hyperframe 6.1 keeps only the last value of a setting repeated in one frame'
     elif t == PUSH_PROMISE:
         if f.sid == 0:
             f.bad = ('proto', 'PUSH_PROMISE on stream 0')
